@@ -400,6 +400,8 @@ var registry = []propertySpec{
 		Harnesses: []harnessSpec{
 			{Name: "VerifC06_Compare", Quick: tierSpec{Cases: 81}, Thorough: tierSpec{Cases: 81}, Sched: -1, Solver: "z3-new",
 				Bounds: "four symbolic dates (day/month/year granularity by case, all 81 combinations), years 1..9999, every valid day; both ranges forwards"},
+			{Name: "VerifC06_Mixed", Quick: tierSpec{Cases: 4}, Thorough: tierSpec{Cases: 4}, Sched: -1, Solver: "cvc5",
+				Bounds: "4 ranges whose ends differ in granularity (year..month, day..month, month..day, year..day of 1943; the day symbolic) against a day range (both days symbolic) and against themselves"},
 			{Name: "VerifC06_Self", Quick: tierSpec{Cases: 9}, Thorough: tierSpec{Cases: 9}, Sched: -1, Solver: "z3-new",
 				Bounds: "one symbolic range (9 granularity pairs) compared with itself, years 1..9999"},
 		},
